@@ -1602,7 +1602,7 @@ class Engine(object):
                             yield s1, ("raise", o.exc)
                             continue
                         # `del self.x`: the field becomes unset; model as a distinguished value
-                        for s2, r in self.setattr(s1, fr, o, mangle(tgt.attr, fr.func.owner), Z(ref(999999), None), tgt):
+                        for s2, r in self.setattr(s1, fr, o, mangle(tgt.attr, fr.func.owner), Z(ref(-999), None), tgt):
                             nxt.append(s2)
                 else:
                     raise Unsupported("del target")
